@@ -14,8 +14,14 @@ use crate::util::sync_cell::SyncCell;
 use super::{outcome, Item};
 
 fn t(k: usize) -> MonotonicTime {
-    // Seconds and nanoseconds pairwise distinct across values.
-    MonotonicTime::new(10 + k as i64, 100 + k as u32).unwrap()
+    // Seconds and nanoseconds pairwise distinct across values; the seconds span the whole
+    // range of a `MonotonicTime` (before the epoch, small, beyond 2^31, 2^33 and 2^62) and the
+    // nanoseconds both ends of theirs, so that every bit of both fields matters.
+    // (Increasing with k: simulation time only moves forward.)
+    const SECS: [i64; 6] = [-((1 << 33) + 7), -3, 10, (1 << 31) + 11, (1 << 34) + 12, 1 << 62];
+    const NANOS: [u32; 6] = [999_999_999, 100, 0, 536_870_913, 999_999_998, 1];
+    assert!(k < 6);
+    MonotonicTime::new(SECS[k], NANOS[k]).unwrap()
 }
 
 fn is_written(v: MonotonicTime, n: usize) -> bool {
